@@ -45,7 +45,7 @@ Print Assumptions C16_refines.
 Theorem C16_no_tab_refuted :
   exists (E : env) (ops : list op), env_ok E /\ ~ Forall out_notab (snd (run E bar_init ops)).
 Proof.
-  exists (chk_env 40 [] []),
+  exists (chk_env 40 [] [] []),
          [SetStyleNew [] (mkglyphs [[9]; [120]] [[35]; [45]] 1) [TPh (bare KSpinner)]; Tick].
   split; [intros d id w H; exact H|].
   vm_compute. intros H. inversion H as [|? ? _ H1]; subst. inversion H1 as [|? ? H2 _]; subst.
@@ -127,10 +127,10 @@ Proof. repeat split; reflexivity. Qed.
 End KeyNames.
 
 (* the environment of the examples: 40 columns, every character one column wide, pos = len = "0" *)
-Definition exE : env := chk_env 40 [] [(KEY_POS, [48]); (KEY_LEN, [48])].
+Definition exE : env := chk_env 40 [] [(KEY_POS, [48]); (KEY_LEN, [48])] [].
 Example C16_ex_env_ok : env_ok exE.
 Proof.
-  intros d id w. apply has_tab_in. unfold exE, chk_env, e_num, KEY_POS, KEY_LEN. cbn [lookup_or].
+  intros d id w. apply has_tab_in. unfold exE, chk_env, e_num, KEY_POS, KEY_LEN. cbn [lookup_draw lookup_or].
   destruct (id =? 6); [reflexivity|]. destruct (id =? 8); reflexivity.
 Qed.
 
